@@ -854,6 +854,7 @@ class Program:
         self.records = {}            # name -> record (first definition wins; identical across units)
         self.records_by_unit = {}
         self.enums = {}
+        self.enum_groups = {}        # enum (tag or typedef) name -> [enumerator names]
         self.globals = []            # dicts with unit
         for u in self.units:
             d = facts[u]
@@ -867,6 +868,11 @@ class Program:
                 if r.get("tag"):
                     self.records.setdefault(r["tag"], r)
             self.enums.update(d["enums"])
+            for g_, names_ in d.get("enum_groups", {}).items():
+                cur_ = self.enum_groups.setdefault(g_, [])
+                for n_ in names_:
+                    if n_ not in cur_:
+                        cur_.append(n_)
             for g in d["globals"]:
                 g = dict(g)
                 g["unit"] = u
@@ -882,6 +888,8 @@ class Program:
             cu = [f for f in c if f.unit == unit]
             if cu:
                 return cu[0]
+            if len(c) == 1:
+                return c[0]             # the only function of that name: it was moved to another file
             c = [f for f in c if not f.static]
         if len(c) == 1:
             return c[0]
